@@ -178,3 +178,94 @@ Proof.
   - destruct (nth_error (Server.rules s) n) as [r|] eqn:E; [|discriminate].
     apply nth_error_In in E. apply rules_cases in E. destruct E as [i ->]. eapply sstep_int; eauto.
 Qed.
+
+(* ---------- client: a call keeps its kind, its payload and (once allocated) its id ---------- *)
+Definition cpers (s s' : Client.state) : Prop :=
+  forall c k, nth_error (calls s) c = Some k ->
+    exists k', nth_error (calls s') c = Some k' /\ k_unary k' = k_unary k /\ k_payload k' = k_payload k /\
+               (0 < k_id k -> k_id k' = k_id k).
+
+Lemma cpers_refl s : cpers s s.
+Proof. intros c k Hn. exists k. auto. Qed.
+
+Lemma cpers_upd s s' c k k' :
+  calls s' = upd c k' (calls s) -> nth_error (calls s) c = Some k ->
+  k_unary k' = k_unary k -> k_payload k' = k_payload k -> (0 < k_id k -> k_id k' = k_id k) -> cpers s s'.
+Proof.
+  intros Hc Hn U P I c0 k0 Hn0. rewrite Hc. destruct (Nat.eq_dec c0 c) as [->|Hne].
+  - rewrite nth_upd_eq by (eapply nth_some_lt; eauto). rewrite Hn in Hn0. inversion Hn0; subst k0. exists k'. auto.
+  - rewrite nth_upd_neq by auto. exists k0. auto.
+Qed.
+
+Lemma cpers_same s s' : calls s' = calls s -> cpers s s'.
+Proof. intros Hc c k Hn. rewrite Hc. exists k. auto. Qed.
+
+Lemma cpers_close_all s s' : calls s' = close_all (calls s) -> cpers s s'.
+Proof.
+  intros Hc c k Hn. rewrite Hc. unfold close_all. rewrite nth_error_map, Hn. simpl.
+  destruct (k_reg k); eexists; split; try reflexivity; auto.
+Qed.
+
+Lemma cpers_app s s' x : calls s' = calls s ++ [x] -> cpers s s'.
+Proof.
+  intros Hc c k Hn. rewrite Hc. exists k. split; auto. rewrite nth_error_app1; auto. eapply nth_some_lt; eauto.
+Qed.
+
+Ltac cpers_done :=
+  csimpl;
+  first [ apply cpers_same; reflexivity
+        | apply cpers_close_all; reflexivity
+        | match goal with E : nth_error (calls ?s) ?c = Some ?k |- cpers ?s _ =>
+            eapply (cpers_upd s _ c k); [csimpl; reflexivity | exact E | csimpl; reflexivity | csimpl; reflexivity | csimpl; try (intros; reflexivity)]
+          end ].
+
+From Goat Require Import Proofs.ClientInv.
+
+Lemma cpers_int s r s' : cinv s -> In r (Client.rules s) -> r s = Some s' -> cpers s s'.
+Proof.
+  intros HI Hin H. apply rules_in in Hin. destruct Hin as [->|[->|(c & _ & Hin)]].
+  - unfold r_rl_unblock in H. open_rule H; cpers_done.
+  - unfold r_rl_read in H. open_rule H; cpers_done.
+  - simpl in Hin.
+    repeat (destruct Hin as [<-|Hin];
+            [ unfold r_check, r_reg, r_wait, r_wait_ctx, r_unreg, r_loop_read, r_loop_read_ctx, r_loop_hand,
+                     r_loop_hand_ctx, r_loop_exit, r_loop_unreg, r_recv, r_header, r_trailer, r_send in H;
+              open_rule H; try cpers_done | ]).
+    all: try destruct Hin.
+    all: try (match goal with |- context [if k_reg ?k then _ else _] => destruct (k_reg k) end; cpers_done).
+    all: match goal with E : nth_error (calls ?s) ?c = Some ?k, P : k_pc ?k = PCheck _ |- _ =>
+           intros Hpos; pose proof (ki_noid _ (cinv_call _ _ _ HI E)) as Z0; rewrite P in Z0; specialize (Z0 eq_refl); lia
+         end.
+Qed.
+
+Lemma cpers_with_call s c g :
+  (forall k k', g k = Some k' -> k_unary k' = k_unary k /\ k_payload k' = k_payload k /\ k_id k' = k_id k) ->
+  cpers s (with_call s c g).
+Proof.
+  intros Hg. unfold with_call. destruct (nth_error (calls s) c) as [k|] eqn:E; [|apply cpers_refl].
+  destruct (g k) as [k'|] eqn:G; [|apply cpers_refl].
+  destruct (Hg _ _ G) as (U & P & I). eapply (cpers_upd s (set_call s c k') c k); [reflexivity | exact E | exact U | exact P | intros _; exact I].
+Qed.
+
+Lemma cpers_ext s a : cinv s -> cpers s (Client.ext s a).
+Proof.
+  intros HI. destruct a; simpl;
+    try (eapply cpers_app; reflexivity);
+    try (apply cpers_same; reflexivity);
+    try (apply cpers_with_call; intros k k' G;
+         repeat match type of G with
+                | match ?x with _ => _ end = Some _ => destruct x; try discriminate G
+                end; inversion G; subst; csimpl; auto).
+  destruct (nth_error (calls s) c) as [k|] eqn:E; [|apply cpers_refl].
+  destruct (k_pc k) eqn:P; try apply cpers_refl.
+  eapply (cpers_upd _ _ c k); csimpl; try reflexivity; eauto.
+  intros Hpos. pose proof (ki_noid _ (cinv_call _ _ _ HI E)) as Z0. rewrite P in Z0. specialize (Z0 eq_refl). lia.
+Qed.
+
+Lemma cpers_step s l s' : cinv s -> Client.lstep s l = Some s' -> cpers s s'.
+Proof.
+  intros HI H. destruct l as [a|n]; simpl in H.
+  - inversion H; subst. apply cpers_ext; auto.
+  - destruct (nth_error (Client.rules s) n) as [r|] eqn:E; [|discriminate].
+    apply nth_error_In in E. eapply cpers_int; eauto.
+Qed.
